@@ -142,7 +142,7 @@ func c05Shapes() []c05shape {
 		{Name: "array-int32", Kind: "array", Schema: gen.S{"type": "array", "items": gen.S{"type": "integer", "format": "int32"}}, Values: []any{gen.Arr(1.0, -5.0)}, Bad: []any{gen.Arr(1.0, 4294967303.0)}},
 		{Name: "number", Kind: "prim", Schema: numS, Values: []any{1.5, -0.25, 3.0, 0.0, 123456.789, 1e21}, Bad: []any{"abc", "1x", "0x1p-2", "Inf", "NaN", "-Infinity", "0x10", "1_0.5"}},
 		{Name: "number-multiple", Kind: "prim", Schema: gen.S{"type": "number", "multipleOf": 0.5, "exclusiveMinimum": true, "minimum": 0.0}, Values: []any{0.5, 0.0, 1.25, 2.0, -0.5}},
-		{Name: "boolean", Kind: "prim", Schema: boolS, Values: []any{true, false}, Bad: []any{"maybe", "yes!"}},
+		{Name: "boolean", Kind: "prim", Schema: boolS, Values: []any{true, false}, Bad: []any{"maybe", "yes!", "1", "0", "t", "T", "f", "F", "True", "FALSE"}},
 		{Name: "string", Kind: "prim", Schema: strS, Values: []any{"abc", "a1", "Hello", "x-y_z", "123", "true", "p", "role"}},
 		{Name: "string-needing-percent-encoding", Kind: "prim", Escape: true, Schema: strS, Values: []any{"a b", "50%", "caf\u00e9", "x#y?z"}},
 		{Name: "string-enum-needing-percent-encoding", Kind: "prim", Escape: true, Schema: gen.S{"type": "string", "enum": gen.Arr("a b", "x/y")}, Values: []any{"a b", "x/y", "a%20b"}},
